@@ -40,3 +40,19 @@ Theorem C09_parse_result :
              (add_text (set_ph (add_text sh [s]) PTail) tail).
 Proof. exact require_order_parse. Qed.
 Print Assumptions C09_parse_result.
+
+(* "No option occurring after that point is set or marked called": after the whole argument vector
+   the option store (values and called marks), the selected command, the levels above it and the
+   unknown-option list are exactly those reached just before the stop token - for every tail - and
+   remaining is the text so far followed by the stop token and the tail, verbatim and in order. *)
+Theorem C09_nothing_set_after_stop :
+  forall pf md lower specs ro root st0 pre s tail st sh,
+    run pf md lower ro specs (init root st0) pre = Ok st ->
+    at_head pf md lower specs st s sh ->
+    (ro && ni_reqorder (n_info (cur sh)))%bool = true ->
+    stops_order md sh s ->
+    exists fin, walk pf md lower ro specs root st0 (pre ++ s :: tail) = Ok fin /\
+      store fin = store sh /\ cur fin = cur sh /\ up fin = up sh /\ unk fin = unk sh /\
+      text fin = text sh ++ s :: tail.
+Proof. exact require_order_store_frozen. Qed.
+Print Assumptions C09_nothing_set_after_stop.
